@@ -7,7 +7,7 @@ from typing import Any, Iterable
 
 from ..runner import CheckBase, Violation
 from .c05 import PHASE_ANCHORS
-from .common import CAUSES, gen_session, pick, with_cause
+from .common import make_rejecting, CAUSES, gen_session, pick, with_cause
 from .hist import Index
 
 CLOSE_CAUSES = [c for c in CAUSES if c != "cancel"] + ["cancel"]
@@ -15,6 +15,12 @@ CLOSE_CAUSES = [c for c in CAUSES if c != "cancel"] + ["cancel"]
 
 def on_stop_oracle(ix: Index) -> list[Violation]:
     out: list[Violation] = []
+    # connections on which the device received a DisconnectRequest of the client: only disconnect() writes one, so the
+    # graceful disconnect had been initiated (whatever the state was when the call was made) before the close
+    asked: set = set()
+    for ev in ix.h:
+        if ev[3] == "dev_rx" and ev[4].get("name") == "DisconnectRequest":
+            asked.add(ix.fd_conn.get(ix.cid_fd.get(ev[4]["conn"])))
     for c in ix.conns:
         calls = ix.on_stop.get(c, [])
         connected = c in ix.connected_seq
@@ -41,9 +47,13 @@ def on_stop_oracle(ix: Index) -> list[Violation]:
             if seq > T:
                 continue
             may_true = True
-            if force or state == "CONNECTED":
-                must_true = True
-                why.append(f"{'force_' if force else ''}disconnect() called in state {state}")
+            # (also when the call was made while the connect phases were still running: the disconnect is initiated by the
+            # call, not by the moment the library gets round to sending its request)
+            must_true = True
+            why.append(f"{'force_' if force else ''}disconnect() called in state {state}")
+        if c in asked:
+            must_true = may_true = True
+            why.append("the client's DisconnectRequest reached the device")
         for seq, mtype, _data, state, _turn, _t in ix.pp.get(c, []):
             if seq <= T and mtype == 5:
                 may_true = True
@@ -79,10 +89,12 @@ class C07(CheckBase):
     quick_cases = 480
     thorough_cases = 4800
 
-    def cases(self, rng: random.Random, tier: str, idx: int) -> Iterable[dict]:
+    def _cases(self, rng: random.Random, tier: str, idx: int) -> Iterable[dict]:
         r = idx % 6
         if r in (0, 1, 2):
             base = gen_session(rng)
+            if idx % 5 == 2:
+                make_rejecting(base, rng)  # a session that is never established: no stop callback, whatever else happens
             scn = base
             n = rng.randint(1, 4)
             # all causes share one anchor in a third of the runs (same turn / adjacent turns)
@@ -119,6 +131,39 @@ class C07(CheckBase):
                         yield with_cause(base, cause, {"turn": n}, phase, rng)
         else:
             scn = gen_session(rng)
+            if idx % 12 == 11:
+                # disconnect() is called while the hello is outstanding; the device answers the hello and drops the connection
+                # right behind it: the session is established and lost again before the waiting disconnect() gets to send
+                # its request - it had been asked for all the same
+                hello = {"api_version_major": 1, "api_version_minor": 10, "name": "simdev", "server_info": "sim"}
+                login = rng.random() < 0.5
+                last = "ConnectRequest" if login else "HelloRequest"
+                msg = ["ConnectResponse", {}] if login else ["HelloResponse", hello]
+                scn["client"].pop("expected_name", None)
+                scn["device"]["replies"] = {last: [{"msgs": [msg], "delay": pick(rng, [0.3, 1.0, 4.0]), "then": pick(rng, ["fin", "rst"])}]}
+                scn["device"].pop("reply_delay", None)
+                scn["actors"] = [{"id": "a0", "at": {"t": 0.0}, "steps": [{"do": "connect", "login": login}, {"do": "sleep", "d": 30.0}]}, {"id": "closer", "at": "manual", "steps": [{"do": "disconnect"}]}]
+                scn["events"] = [{"at": {"on": "state", "match": {"new": "HANDSHAKE_COMPLETE"}, "delay": pick(rng, [0.0, 0.1])}, "do": "start_actor", "actor": "closer", "phase": "post"}]
+                scn["net"]["connect"] = {a: [{"outcome": "ok", "latency": 0.001}] for a in scn["client"]["addresses"]}
+                scn["net"]["cuts"] = pick(rng, [{"mode": "coalesce"}, {"mode": "sends"}])
+                yield scn
+                return
+            if idx % 12 == 5:
+                # a disconnect() that gives up waiting for a slow hello (5 s), then the hello completes after all, the caller
+                # of disconnect() is cancelled while it waits for the DisconnectResponse, and finally something else ends the
+                # session: it was established, so its stop callback runs - once
+                hello_d = pick(rng, [5.5, 6.0, 7.0, 9.0])
+                scn["device"]["replies"] = {"HelloRequest": [{"default": True, "delay": hello_d}], "DisconnectRequest": ["silent"]}
+                scn["device"].pop("reply_delay", None)
+                scn["actors"] = [{"id": "a0", "at": {"t": 0.0}, "steps": [{"do": "connect", "login": False}, {"do": "sleep", "d": 60.0}]}, {"id": "closer", "at": "manual", "steps": [{"do": "disconnect"}]}]
+                t_call = pick(rng, [0.0, 0.2])
+                scn["events"] = [{"at": {"on": "state", "match": {"new": "HANDSHAKE_COMPLETE"}, "delay": t_call}, "do": "start_actor", "actor": "closer", "phase": "post"},
+                                 {"at": {"on": "state", "match": {"new": "CONNECTED"}, "delay": pick(rng, [0.5, 2.0])}, "do": "poke", "what": "cancel", "target": "closer", "phase": "pre"}]
+                scn = with_cause(scn, pick(rng, ["fin", "rst", "garbage", "dev_disconnect", "eio"]), {"on": "state", "match": {"new": "CONNECTED"}, "delay": pick(rng, [3.0, 4.0])}, "pre", rng)
+                scn["net"]["connect"] = {a: [{"outcome": "ok", "latency": 0.001}] for a in scn["client"]["addresses"]}
+                scn["end"] = 200.0
+                yield scn
+                return
             if rng.random() < 0.2:
                 # the application lets go of its APIClient while the session lives (the loop keeps transport, protocol and
                 # connection alive): whatever ends the session later, the stop callback given at connect time still runs
@@ -163,6 +208,13 @@ class C07(CheckBase):
                     else:
                         scn["events"].append({"at": trig, "do": "fault", "kind": "fin", "latency": 0.0})
                 scn["actors"][0]["steps"] += tail
+            yield scn
+
+    def cases(self, rng: random.Random, tier: str, idx: int) -> Iterable[dict]:
+        for scn in self._cases(rng, tier, idx):
+            if idx % 7 == 5 and "client" in scn:
+                # the client object was built in synchronous set-up code, while another (never running) loop was current
+                scn["client"]["ctor_loop"] = "other"
             yield scn
 
     def oracle(self, run: Any, scn: dict) -> list[Violation]:
